@@ -223,14 +223,13 @@ theorem graph_view_sublist (b : Branch) (start stop : Option Nat) (excl : Bool) 
 
 /-! ## per-file filter -/
 
-theorem mem_stack1 (stack : List (Option V)) (v : V) :
-    some v ∈ (if v.depth == stack.length then stack ++ [some v]
-      else (stack.take (v.depth + 1)).dropLast ++ [some v]) := by
+theorem mem_stack1 (stack : List (Option V)) (v : V) : some v ∈ pushStack stack v := by
+  unfold pushStack
   split <;> simp
 
-theorem stack1_subset (stack : List (Option V)) (v x : V)
-    (h : some x ∈ (if v.depth == stack.length then stack ++ [some v]
-      else (stack.take (v.depth + 1)).dropLast ++ [some v])) : some x ∈ stack ∨ x = v := by
+theorem stack1_subset (stack : List (Option V)) (v x : V) (h : some x ∈ pushStack stack v) :
+    some x ∈ stack ∨ x = v := by
+  unfold pushStack at h
   split at h
   · rcases List.mem_append.mp h with h | h
     · exact Or.inl h
@@ -238,6 +237,41 @@ theorem stack1_subset (stack : List (Option V)) (v x : V)
   · rcases List.mem_append.mp h with h | h
     · exact Or.inl (List.mem_of_mem_take (List.dropLast_subset _ h))
     · right; simpa using h
+
+/-- **Stack discipline.**  After a revision of depth `d` (not deeper than the
+stack, as in every merge-sorted view) the stack has exactly `d + 1` slots: the
+slots below `d` — the nearest enclosing merges — are untouched, slot `d` is the
+revision itself, and everything deeper (merges that have ended) is gone. -/
+theorem pushStack_discipline (stack : List (Option V)) (v : V) (h : v.depth ≤ stack.length) :
+    (pushStack stack v).length = v.depth + 1 ∧
+    (pushStack stack v).take v.depth = stack.take v.depth ∧
+    (pushStack stack v)[v.depth]? = some (some v) := by
+  unfold pushStack
+  by_cases hd : (v.depth == stack.length) = true
+  · have hd' : v.depth = stack.length := by simpa using hd
+    simp only [hd, if_true]
+    refine ⟨by simp [hd'], ?_, ?_⟩
+    · rw [hd', List.take_length]; simp
+    · rw [hd']; simp
+  · have hd' : v.depth < stack.length := by
+      have : v.depth ≠ stack.length := by simpa using hd
+      omega
+    simp only [hd, Bool.false_eq_true, if_false]
+    have hlen : ((stack.take (v.depth + 1)).dropLast).length = v.depth := by
+      simp [List.length_dropLast, List.length_take]; omega
+    have hdl : (stack.take (v.depth + 1)).dropLast = stack.take v.depth := by
+      rw [List.dropLast_eq_take, List.length_take, List.take_take]
+      congr 1; omega
+    refine ⟨by simp [hlen], ?_, ?_⟩
+    · rw [hdl, List.take_append_of_le_length (by simp [List.length_take]; omega), List.take_take]
+      congr 1; omega
+    · rw [List.getElem?_append_right (by omega), hlen]; simp
+
+/-- marking entries as listed keeps the stack's length -/
+theorem touch_mark_length (inc : Bool) (s : List (Option V)) :
+    (s.map fun n => match n with
+      | some x => if inc || x.depth == 0 then none else some x
+      | none => none).length = s.length := by simp
 
 /-- **With merges included, every revision of the view that modified the file is listed.** -/
 theorem touching_contains_modified (modified : List Nat) : ∀ (l : List V) (stack : List (Option V)) (v : V),
